@@ -133,18 +133,19 @@ def _one(rng, builder, dtype, ifm, post, embed, neighbour=None):
     return net
 
 
-def single(rng, builder, dtype="int8", ifm=(1, 8, 8, 4), post=None, neighbours=None):
+def single(rng, builder, dtype="int8", ifm=(1, 8, 8, 4), post=None, neighbours=None, nbk=None):
     """the operator built by `builder(b, x)` (a) alone on a fresh input, (b) between accelerated neighbours
     (1x1 CONV_2D / RELU -> X -> 1x1 CONV_2D / RELU), (c) next to operators that later passes may merge with it:
     X -> LUT activation / RELU-type activation / QUANTIZE / RESHAPE-like / ADD, MUL with a constant, PAD -> X.
-    `neighbours`: indices into NEIGHBOURS; default = `_STATE["per_case"]` of them in rotation ("all" = every kind)."""
+    `neighbours`: indices into NEIGHBOURS; default = `_STATE["per_case"]` of them in rotation (quick: 2, or `nbk` for the
+    large sweeps; thorough: every kind)."""
     v = Variants()
     for suffix, embed in (("", False), (" [between NPU ops]", True)):
         net = _one(rng, builder, dtype, ifm, post, embed)
         if net is not None:
             v.append((suffix, net))
     if neighbours is None:
-        k = _STATE["per_case"]
+        k = _STATE["per_case"] if nbk is None or _STATE["per_case"] >= len(NEIGHBOURS) else nbk
         if k >= len(NEIGHBOURS):
             neighbours = range(len(NEIGHBOURS))
         else:
@@ -457,7 +458,7 @@ def cases(rng, thorough=False):
                   (1, 8, 8, 4), (1, 1, 8, 4), (1, 8, 1, 4), (1, 8, 8, 1), (2, 8, 8, 4), (2, 1, 8, 4)):
         for r in range(1, len(shape) + 1):
             for axes in itertools.combinations(range(len(shape)), r):
-                add(f"MEAN rank{len(shape)} {shape} axes={axes}", single(rng, mean(axes, r % 2 == 1), dtype="int8", ifm=shape))
+                add(f"MEAN rank{len(shape)} {shape} axes={axes}", single(rng, mean(axes, r % 2 == 1), dtype="int8", ifm=shape, nbk=1))
     add("MEAN int16 256x257", single(rng, mean((1, 2)), dtype="int16", ifm=(1, 256, 257, 1)))
     add("MEAN int16 256x256", single(rng, mean((1, 2)), dtype="int16", ifm=(1, 256, 256, 1)))
     add("MEAN keep_dims false", single(rng, mean((1, 2), False)))
@@ -476,7 +477,7 @@ def cases(rng, thorough=False):
         for ifm, ofm in (((4, 4), (8, 8)), ((4, 4), (16, 16)), ((4, 4), (32, 32)), ((4, 4), (12, 12)), ((4, 4), (64, 64)), ((4, 4), (8, 16)), ((4, 4), (4, 4)),
                          ((1, 1), (5, 7)), ((4, 4), (7, 7)), ((4, 4), (13, 13)), ((3, 5), (5, 9)), ((2, 2), (3, 3))):
             for align, half in ((False, False), (True, False), (False, True), (True, True)):
-                add(f"{kind} {ifm}->{ofm} align={align} half={half}", single(rng, resize(kind, ofm, align, half), ifm=(1, ifm[0], ifm[1], 4)))
+                add(f"{kind} {ifm}->{ofm} align={align} half={half}", single(rng, resize(kind, ofm, align, half), ifm=(1, ifm[0], ifm[1], 4), nbk=1))
         add(f"{kind} size tensor mismatch", single(rng, resize(kind, (8, 8), False, False, size=(8, 9)), ifm=(1, 4, 4, 4)))
     # ---- pad ------------------------------------------------------------------------------------------------------------------
     for pads, lab in (([[0, 0], [1, 1], [1, 1], [0, 0]], "hw"), ([[0, 0], [0, 0], [0, 0], [1, 1]], "c"), ([[1, 0], [0, 0], [0, 0], [0, 0]], "n"),
@@ -711,8 +712,9 @@ def cases(rng, thorough=False):
         for n in range(len(NEIGHBOURS)):
             net = _one(rng, bld, kw.get("dtype", "int8"), kw.get("ifm", (1, 8, 8, 4)), None, False, n)
             if net is not None:
-                net.both_classes = True
                 nb = NEIGHBOURS[n]
+                # only table-lookup activations are treated differently by the two accelerator classes
+                net.both_classes = nb[0] in ("TANH", "LOGISTIC", "LEAKY_RELU", "HARD_SWISH")
                 add(f"core {name}" + (f" [{nb[0]} in front]" if nb[1] == "before" else f" [then {nb[0]}]"), net)
     # ---- small multi-operator networks --------------------------------------------------------------------------------------------------
     nmulti = 1200 if thorough else 80
